@@ -519,6 +519,20 @@ impl ByteArrayDecoderDeltaLength {
 
         if self.validate_utf8 {
             output.check_valid_utf8(initial_values_length)?;
+            // The bytes are valid UTF-8 as a whole; every value must also start on a character
+            // boundary, otherwise a code point split across two values would be accepted
+            let values = output.values.as_slice();
+            let new_offsets = &output.offsets[output.offsets.len() - to_read..];
+            for offset in new_offsets {
+                // Bit-magic taken from `std::str::is_char_boundary`
+                if let Some(&b) = values.get(offset.as_usize())
+                    && (b as i8) < -0x40
+                {
+                    return Err(ParquetError::General(
+                        "encountered non UTF-8 data".to_string(),
+                    ));
+                }
+            }
         }
         Ok(to_read)
     }
